@@ -21,6 +21,7 @@ RULE = "programs: (i) type-directed programs of G2 (all node kinds, lambdas driv
 RULE += ' Every program also runs under two budgets far above any need (10^6 ... 10^20000, integers too long to print included).'
 RULE += ' Host values objs(f, n) whose __eq__/__lt__/__bool__/__str__ call the program lambda f are searched, sorted, compared, tested and printed by builtins (the callbacks are charged to the call).'
 RULE += " One more workload: the repository's own test-suite run under the node monitor (per VM state: operations charged == node evaluations observed <= budget)."
+RULE += " Coverage-guided programs: one atheris/libFuzzer process per worker (6 s quick, 120 s thorough) runs this check's own judgement on generated program texts over the instrumented sandbox copy; programs on which an unlisted violation was recorded there are judged again by the worker."
 ASSUMPTIONS = ['an operation = one evaluation of a syntax-tree node, counted by M1 at the entry of every concrete node class\'s eval (independent of Op.eval)',
                'a run with budget N returns normally iff the unbounded run needs T < N operations; otherwise it raises the ops-limit error at the N-th node entry, before any effect of that node',
                'host-visible effects = probe calls, writes to the host names mapping, mutator calls (each logged with its arguments); an aborted run\'s log must be a prefix of the unbounded run\'s']
@@ -224,6 +225,7 @@ def cases(ctx):
     rnd = ctx.rnd
     if ctx.shard == ctx.nshards - 1:
         yield ('repo-tests',)
+    yield ('cgf', rnd.getrandbits(30), ctx.scale(6, 120))          # coverage-guided programs, one fuzzing process per worker
     if ctx.shard == 0:
         for src in ['1 + 2', 'emit(1)\nemit(2)\nemit(3)', 'x = 5\ny = x + 1\nemit(y)', 'map([1, 2, 3], v => emit(v))', 'sorted([3, 1, 2], v => 0 - v)',
                     'hm(v => emit(v), 3)', 'emit(1)\nreenter(1)\nmap([1, 2, 3, 4, 5, 6, 7, 8, 9, 10], v => emit(v))', 'try_(v => hm(w => emit(w), 5), 0)\nemit("after")', 'f = n => 0 if n < 1 else n + f(n - 1)\nf(5)', '']:
@@ -339,8 +341,37 @@ def run_repo_tests(case, ctx):
     ctx.rec[0] = Recorder(ctx)
 
 
+def case_deadline(case):
+    return case[2] + 400 if case[0] == 'cgf' else CASE_DEADLINE
+
+
+def run_cgf(case, ctx):
+    """coverage-guided programs: an atheris/libFuzzer process runs THIS check's run_case on ('prog', text, None, False) cases (unbounded run, then every budget
+    up to the need and beyond, effects compared) over the instrumented sandbox copy; programs on which an unlisted violation was recorded are judged again here"""
+    from lib import cgdriver
+    _, seed, seconds = case
+    r = random.Random(seed)
+    seeds = ['1 + 2', 'emit(1)\nemit(2)\nemit(3)', 'x = 5\ny = x + 1\nemit(y)', 'map([1, 2, 3], v => emit(v))', 'sorted([3, 1, 2], v => 0 - v)', 'hm(v => emit(v), 3)',
+             'try_(v => hm(w => emit(w), 5), 0)\nemit("after")', 'f = n => 0 if n < 1 else n + f(n - 1)\nf(5)', 'emit(1) and emit(0) or emit(2)', 'push(h_list, emit(4))', 'reduce([1, 2, 3], (p, q) => emit(p + q))',
+             'index_of(objs(v => emit(v), 3), 9)', 'emit(reenter(0))']
+    for _ in range(6):
+        seeds.append(gen_case_program(r))
+    out = cgdriver.run(ctx, 'check:C01:prog', seed, seconds, seeds)
+    if out is None:
+        return
+    st, fired, _slow = out
+    for text in fired:
+        ctx.count('programs_on_which_the_oracle_fired_in_the_fuzzing_process')
+        before = len(ctx.violations)
+        run_case(('prog', text, None, False), ctx)
+        if len(ctx.violations) == before:
+            ctx.violation('coverage-guided fuzzing: a violation was recorded in the fuzzing process but not when the program was judged again here', ('prog', text, None, False), detail={'src': text[:300]})
+
+
 def run_case(case, ctx):
     kind = case[0]
+    if kind == 'cgf':
+        return run_cgf(case, ctx)
     if kind == 'repo-tests':
         return run_repo_tests(case, ctx)
     if kind in ('prog', 'gen'):
